@@ -2,8 +2,11 @@ import TTModel.C09_Options
 import TTModel.C09_BDSK
 import TTGen.C09_Options
 import TTProofs.Lemmas.C09_Analytic
+import TTProofs.Lemmas.C09_Semigroup
 import TTProofs.Lemmas.C09_Discrete
 import TTProofs.Lemmas.C09_Single
+import TTProofs.Lemmas.C09_Refine
+import TTProofs.Lemmas.C09_Unit
 /-!
 # C09 — birth–death skyline density agrees across epochs and with the constant model; JSON options select
 the behaviour they name
@@ -12,8 +15,7 @@ the behaviour they name
 * the analytic theorems are about `TT.C09.logProb` and its parts (`TTModel/C09_BDSK.lean`), the model of
   `PiecewiseConstantBirthDeath.log_prob` tied to the code by the Float correspondence of `harness/c09.py`.
 * NOT proved: agreement with numerical integration of the master equations (an ODE statement; explored with RK4 in
-  the harness only) and `split_invariance` for the full density (its three ingredients are proved below:
-  `p_semigroup`, `q_semigroup`, `epoch_index_refines` + `boundary_count`).
+  the harness only).
 -/
 namespace TTProps.C09
 open TT TT.C09 TTGen.C09_Options
@@ -186,22 +188,8 @@ theorem p_semigroup (r : Rates ℝ) (i : Nat) (d1 d2 pn : ℝ)
     (hl : r.lam i = r.lam (i + 1)) (hm : r.mu i = r.mu (i + 1)) (hp : r.psi i = r.psi (i + 1))
     (hrho : r.rho i = 0) (hlam : 0 < r.lam (i + 1)) (hpsi : 0 < r.psi (i + 1))
     (hpn0 : 0 ≤ pn) (hpn1 : pn ≤ 1) (hrho1 : 0 ≤ r.rho (i + 1)) (hd1 : 0 ≤ d1) (hd2 : 0 ≤ d2) :
-    pStep r i d1 (pStep r (i + 1) d2 pn) = pStep r (i + 1) (d1 + d2) pn := by
-  have hAeq : Acoef r i = Acoef r (i + 1) := by unfold Acoef; rw [hl, hm, hp]
-  have hA : 0 < Acoef r (i + 1) := Acoef_pos r (i + 1) (mul_pos hlam hpsi)
-  have hB : -1 ≤ Bcoef r (i + 1) pn := Bcoef_ge_neg_one r (i + 1) pn (mul_pos hlam hpsi) hlam.le hpn0 hpn1 hrho1
-  have hD2 : Real.exp (Acoef r (i + 1) * d2) * (1 + Bcoef r (i + 1) pn) + (1 - Bcoef r (i + 1) pn) ≠ 0 := by
-    have := denom_ge_two _ _ d2 hB (mul_nonneg hA.le hd2); linarith
-  have hD12 : Real.exp (Acoef r (i + 1) * (d1 + d2)) * (1 + Bcoef r (i + 1) pn) + (1 - Bcoef r (i + 1) pn) ≠ 0 := by
-    have := denom_ge_two _ _ (d1 + d2) hB (mul_nonneg hA.le (add_nonneg hd1 hd2)); linarith
-  rw [pStep_eq_pClosed, pStep_eq_pClosed, pStep_eq_pClosed]
-  have hBi : Bcoef r i (pClosed (r.lam (i + 1)) (r.mu (i + 1)) (r.psi (i + 1)) (Acoef r (i + 1)) (Bcoef r (i + 1) pn) d2)
-      = (Real.exp (Acoef r (i + 1) * d2) * (1 + Bcoef r (i + 1) pn) - (1 - Bcoef r (i + 1) pn))
-        / (Real.exp (Acoef r (i + 1) * d2) * (1 + Bcoef r (i + 1) pn) + (1 - Bcoef r (i + 1) pn)) := by
-    rw [Bcoef_def r i, hAeq, hl, hm, hp, hrho]
-    exact Bcoef_of_pClosed _ _ _ _ _ _ hA.ne' hlam.ne' hD2
-  rw [hBi, hAeq, hl, hm, hp]
-  exact p_semigroup_core _ _ _ _ _ _ _ hD2 hD12
+    pStep r i d1 (pStep r (i + 1) d2 pn) = pStep r (i + 1) (d1 + d2) pn :=
+  p_semigroup_model r i d1 d2 pn hl hm hp hrho hlam hpsi hpn0 hpn1 hrho1 hd1 hd2
 
 /-- **q_semigroup**: under the same hypotheses the branch factor over the merged epoch is the product of the
 factor in the older sub-epoch (from `x` to the cut `tmid`) and the factor of a lineage crossing the cut
@@ -212,36 +200,8 @@ theorem q_semigroup (r : Rates ℝ) (i : Nat) (x tmid tend pn : ℝ)
     (hpn0 : 0 ≤ pn) (hpn1 : pn ≤ 1) (hrho1 : 0 ≤ r.rho (i + 1)) (hx : x ≤ tmid) (hmid : tmid ≤ tend) :
     logq (Acoef r i) (Bcoef r i (pStep r (i + 1) (tend - tmid) pn)) x tmid
       + logq (Acoef r (i + 1)) (Bcoef r (i + 1) pn) tmid tend
-      = logq (Acoef r (i + 1)) (Bcoef r (i + 1) pn) x tend := by
-  have hAeq : Acoef r i = Acoef r (i + 1) := by unfold Acoef; rw [hl, hm, hp]
-  have hA : 0 < Acoef r (i + 1) := Acoef_pos r (i + 1) (mul_pos hlam hpsi)
-  have hB : -1 ≤ Bcoef r (i + 1) pn := Bcoef_ge_neg_one r (i + 1) pn (mul_pos hlam hpsi) hlam.le hpn0 hpn1 hrho1
-  have hd1 : 0 ≤ tmid - x := by linarith
-  have hd2 : 0 ≤ tend - tmid := by linarith
-  have hD2 : Real.exp (Acoef r (i + 1) * (tend - tmid)) * (1 + Bcoef r (i + 1) pn) + (1 - Bcoef r (i + 1) pn) ≠ 0 := by
-    have := denom_ge_two _ _ (tend - tmid) hB (mul_nonneg hA.le hd2); linarith
-  have hD12 : Real.exp (Acoef r (i + 1) * ((tmid - x) + (tend - tmid))) * (1 + Bcoef r (i + 1) pn)
-      + (1 - Bcoef r (i + 1) pn) ≠ 0 := by
-    have := denom_ge_two _ _ ((tmid - x) + (tend - tmid)) hB (mul_nonneg hA.le (add_nonneg hd1 hd2)); linarith
-  have hBi : Bcoef r i (pStep r (i + 1) (tend - tmid) pn)
-      = (Real.exp (Acoef r (i + 1) * (tend - tmid)) * (1 + Bcoef r (i + 1) pn) - (1 - Bcoef r (i + 1) pn))
-        / (Real.exp (Acoef r (i + 1) * (tend - tmid)) * (1 + Bcoef r (i + 1) pn) + (1 - Bcoef r (i + 1) pn)) := by
-    rw [pStep_eq_pClosed, Bcoef_def r i, hAeq, hl, hm, hp, hrho]
-    exact Bcoef_of_pClosed _ _ _ _ _ _ hA.ne' hlam.ne' hD2
-  have key := q_semigroup_core (Acoef r (i + 1)) (Bcoef r (i + 1) pn) (tmid - x) (tend - tmid) hD2 hD12
-  have e : (tmid - x) + (tend - tmid) = tend - x := by ring
-  rw [e] at key hD12
-  have hq2 : qv (Acoef r (i + 1)) (Bcoef r (i + 1) pn) (tend - tmid) ≠ 0 := by
-    unfold qv
-    exact div_ne_zero (mul_ne_zero (by norm_num) (Real.exp_ne_zero _)) (pow_ne_zero _ hD2)
-  have hq12 : qv (Acoef r (i + 1)) (Bcoef r (i + 1) pn) (tend - x) ≠ 0 := by
-    unfold qv
-    exact div_ne_zero (mul_ne_zero (by norm_num) (Real.exp_ne_zero _)) (pow_ne_zero _ hD12)
-  rw [logq_eq, logq_eq, logq_eq, hBi, hAeq, ← key]
-  refine (Real.log_mul ?_ hq2).symm
-  intro h0
-  rw [h0, zero_mul] at key
-  exact hq12 key.symm
+      = logq (Acoef r (i + 1)) (Bcoef r (i + 1) pn) x tend :=
+  q_semigroup_model r i x tmid tend pn hl hm hp hrho hlam hpsi hpn0 hpn1 hrho1 hx hmid
 
 /-! ## refining the epoch grid: indices and boundary counts -/
 
@@ -270,7 +230,7 @@ and every boundary `τ` after the origin, the number `n = #{internal < τ} - #{t
 number of branches that are alive at `τ` and not sampled at `τ`. -/
 theorem boundary_count (T : TTree ℝ) (p τ : ℝ) (hinc : Increasing p T) (hp : p < τ) (t : Nat → ℝ) (i : Nat)
     (hτ : t i = τ) :
-    nCross t i T.internalTimes T.tipTimes = crossing τ p T := by
+    nCross t i T.internalTimes T.tipTimes = (crossing τ p T : Int) := by
   have := crossing_count τ T p hinc hp
   unfold nCross
   rw [hτ]
@@ -278,5 +238,57 @@ theorem boundary_count (T : TTree ℝ) (p τ : ℝ) (hinc : Increasing p T) (hp 
 
 example : Increasing 0 (.node 1 (.tip 2) (.node (3/2) (.tip 3) (.tip (7/4)))) := by
   simp [Increasing]; norm_num
+
+/-! ## refinement invariance of the whole density -/
+
+/-- every `p_k` is a probability (positive rates, `mu ≥ 0`, `0 ≤ rho ≤ 1`, increasing epoch times) -/
+theorem p_is_probability (r : Rates ℝ) (t : Nat → ℝ) (m : Nat) (g : Grid t m)
+    (hr : ∀ k, k < m → 0 < r.lam k ∧ 0 ≤ r.mu k ∧ 0 < r.psi k ∧ 0 ≤ r.rho k ∧ r.rho k ≤ 1) (k : Nat) :
+    0 ≤ pAt r t m k ∧ pAt r t m k ≤ 1 :=
+  pAt_mem_unit r t m g hr (m - k) k rfl
+
+/-- **split_invariance**: the whole `PiecewiseConstantBirthDeath` log density (model `logProb`, no removal probability) is
+unchanged when epoch `i` is cut at ANY point `s` strictly inside it into two sub-epochs carrying its rates, with no
+sampling event at the cut (`cutRates`: `rho = 0` there) — for any multiset of birth ages `ints` (in `(0, T]`) and sampling
+ages `tips` (in `[0, T)`), whether or not `s` coincides with a sampling or birth time, with or without survival
+conditioning; the counts `n_i` are integers, so the lists need not come from a tree.  Proof: the density is a sum of
+per-epoch contributions (`logProb_eq_sum_epochs`); epochs away from the cut are unchanged (`p_semigroup` through the
+recursion, index characterisation on increasing grids); at the cut `q_semigroup` factorises every branch factor and the
+number of lineages crossing the cut is the number entering the epoch plus births minus samplings before it. -/
+theorem split_invariance (r : Rates ℝ) (t : Nat → ℝ) (m i : Nat) (s : ℝ) (hi : i < m) (g : Grid t m) (t0 : t 0 = 0)
+    (hs1 : t i < s) (hs2 : s < t (i + 1))
+    (hr : ∀ k, k < m → 0 < r.lam k ∧ 0 ≤ r.mu k ∧ 0 < r.psi k ∧ 0 ≤ r.rho k ∧ r.rho k ≤ 1)
+    (surv : Bool) (tips ints : List ℝ)
+    (hints : ∀ a ∈ ints, 0 < a ∧ a ≤ t m) (htips : ∀ a ∈ tips, 0 ≤ a ∧ a < t m) :
+    logProb (cutRates r i) none (cutTimes t i s) (m + 1) surv tips ints = logProb r none t m surv tips ints := by
+  obtain ⟨a, _, c, d, _⟩ := hr i hi
+  exact logProb_split (splitAt_cut r t m i s hi g t0 hs1 hs2 a c d (p_is_probability r t m g hr (i + 1)))
+    surv tips ints hints htips
+
+/-- the same for a refined grid given by its properties (`SplitAt`) rather than by `cutTimes`/`cutRates` -/
+theorem split_invariance_of_splitAt {r r' : Rates ℝ} {t t' : Nat → ℝ} {m i : Nat} {s : ℝ} (h : SplitAt r r' t t' m i s)
+    (surv : Bool) (tips ints : List ℝ)
+    (hints : ∀ a ∈ ints, 0 < a ∧ a ≤ t m) (htips : ∀ a ∈ tips, 0 ≤ a ∧ a < t m) :
+    logProb r' none t' (m + 1) surv tips ints = logProb r none t m surv tips ints :=
+  logProb_split h surv tips ints hints htips
+
+/-- **refinement_invariance**: by induction, any refinement obtained by a chain of such cuts (any number of new
+boundaries, in any order, in any epochs) leaves the log density unchanged. -/
+theorem refinement_invariance {r r'' : Rates ℝ} {t t'' : Nat → ℝ} {m m'' : Nat} (h : Refines r t m r'' t'' m'')
+    (surv : Bool) (tips ints : List ℝ)
+    (hints : ∀ a ∈ ints, 0 < a ∧ a ≤ t m) (htips : ∀ a ∈ tips, 0 ≤ a ∧ a < t m) :
+    logProb r'' none t'' m'' surv tips ints = logProb r none t m surv tips ints :=
+  logProb_refines h surv tips ints hints htips
+
+/-- non-vacuity: one epoch `[0, 2)` with rates (2, 1, 1/2), `rho = 1/4`, cut at `s = 3/2` — which is the sampling time of
+the tip of age `1/2` (boundary exactly on a sampling time); the hypotheses of `split_invariance` hold -/
+example : ∃ (r : Rates ℝ) (t : Nat → ℝ), Grid t 1 ∧ t 0 = 0 ∧ t 0 < 3/2 ∧ (3/2 : ℝ) < t 1 ∧
+    (∀ k, k < 1 → 0 < r.lam k ∧ 0 ≤ r.mu k ∧ 0 < r.psi k ∧ 0 ≤ r.rho k ∧ r.rho k ≤ 1) ∧
+    (∀ a ∈ [(1:ℝ)], 0 < a ∧ a ≤ t 1) ∧ (∀ a ∈ [(0:ℝ), 1/2], 0 ≤ a ∧ a < t 1) ∧ t 1 - 1/2 = 3/2 := by
+  refine ⟨⟨fun _ => 2, fun _ => 1, fun _ => 1/2, fun _ => 1/4⟩, fun k => if k = 0 then 0 else 2, ?_, ?_, ?_, ?_, ?_, ?_, ?_, ?_⟩
+  · intro a b hab hb
+    have : a = 0 ∧ b = 1 := by omega
+    rw [this.1, this.2]; norm_num
+  all_goals norm_num
 
 end TTProps.C09
